@@ -989,8 +989,7 @@ class Connection (EventMixin):
       s = self._previous_stats
       self._previous_stats = []
       if handler is None:
-        log.warn("No handler for stats of type " +
-                 str(self._previous_stats[0].type))
+        log.warn("No handler for stats of type " + str(s[0].type))
         return
       handler(self, s)
 
